@@ -3,11 +3,12 @@ EXTENDS Diag, Json
 CONSTANT MaxPre
 SeqsUpTo(S, n) == UNION {[1..m -> S] : m \in 0..n}
 \* eof: the file with the bad entry ends at end of file, without a final line ending (then nothing follows the entry)
-MCInit == \E pre \in SeqsUpTo(BlockKinds, MaxPre), f \in Faults, nl \in {"LF", "CRLF"}, depth \in 0..2, via \in {"sub", "parent"}, after \in BOOLEAN, eof \in BOOLEAN :
+MCInit == \E pre \in SeqsUpTo(BlockKinds, MaxPre), f \in Faults, nl \in {"LF", "CRLF"}, depth \in 0..2, via \in {"sub", "parent"}, after \in BOOLEAN, eof \in BOOLEAN, tight \in BOOLEAN :
             /\ (depth < 2 => via = "sub")
             /\ (eof => ~after /\ Len(pre) <= 1)
-            /\ d = [pre |-> pre, fault |-> f, nl |-> nl, depth |-> depth, via |-> via, after |-> after, eof |-> eof]
+            /\ (tight => after /\ Len(f.lines) = 1)          \* a one-line entry directly followed by the next entries
+            /\ d = [pre |-> pre, fault |-> f, nl |-> nl, depth |-> depth, via |-> via, after |-> after, eof |-> eof, tight |-> tight]
 MCSpec == MCInit /\ [][Next]_d
-Emit == PrintT(<<"REPLAY", ToJson([module |-> "Diag", fault |-> d.fault.id, nl |-> d.nl, depth |-> d.depth, pre |-> d.pre, after |-> d.after, eof |-> d.eof, badfile |-> ExpectedFile,
+Emit == PrintT(<<"REPLAY", ToJson([module |-> "Diag", fault |-> d.fault.id, nl |-> d.nl, depth |-> d.depth, pre |-> d.pre, after |-> d.after, eof |-> d.eof, tight |-> d.tight, badfile |-> ExpectedFile,
                                    files |-> Files, root |-> RootPath, expect |-> Expected])>>)
 =============================================================================
